@@ -1377,6 +1377,17 @@ WITNESS_MIGRATION = {'kind': 'witness-migration',
                              ['mut', _w('bob', 'x\\y.flac', 7, 100)], ['store'], ['restart'], ['sched', []]]}
 
 
+# the cache written by stop() / from a listener while remove() is suspended in the delivery of TransferRemovedEvent
+# (PAUSED: via the abort transition; COMPLETE: no abort), and while add() is suspended in TransferAddedEvent
+WITNESS_WRITE_IN_REMOVED = {'kind': 'witness-write-in-removed-listener',
+                            'ops': [['add', _w('u 1', 'b0', 10, 100)], ['add', _w('bob', 'done.mp3', 7, 100)], ['store'],
+                                    ['rmc', 'u 1', 'b0', 1], ['store'], ['rms', 'u 1', 'b0', 1], ['store', 'stop'],
+                                    ['restart'], ['rmc', 'bob', 'done.mp3', 1], ['store'], ['restart'], ['sched', []]]}
+WITNESS_WRITE_IN_ADDED = {'kind': 'witness-write-in-added-listener',
+                          'ops': [['addc', _w('alice', 'new.mp3', 1, 0)], ['store'], ['restart'], ['sched', []]]}
+WITNESSES = [WITNESS_COLLISION, WITNESS_MIGRATION, WITNESS_WRITE_IN_REMOVED, WITNESS_WRITE_IN_ADDED]
+
+
 class C17(Property):
     id = 'C17'
     props_module = 'AioslskVerif.Props.C17'
@@ -1421,7 +1432,7 @@ class C17(Property):
         res = KResult()
         rng = random.Random(f'C17-{seed}')
         n = (1500 if tier == "quick" else 20000) * widen
-        cases = [WITNESS_COLLISION, WITNESS_MIGRATION] + [_gen_case(rng) for _ in range(n)]
+        cases = WITNESSES + [_gen_case(rng) for _ in range(n)]
         rng_s = random.Random(f'C17-sweep-{seed}')
         sweeps = [_gen_sweep(rng_s) for _ in range((300 if tier == "quick" else 4000) * widen)]
         missing = _boundary_values_complete()
